@@ -184,6 +184,54 @@ type c01Scenario struct {
 
 var gbCorpus = []string{"NC_001422.gb", "NC_001422_part.gb", "pBAT5.txt", "NC_000913.3.min.gb"}
 
+// tableAgainstSpec compares the feature table of a record read back with the
+// generator's description of it: the keys in order, and for every feature
+// the (name, value) pairs as a multiset (how a Props value orders repeated
+// names is gts's business; that none is lost, added or changed is not).
+func tableAgainstSpec(sp *recSpec, seq gts.Sequence) string {
+	var keys []string
+	table := seq.Features()
+	if g, ok := seq.(seqio.GenBank); ok {
+		table = g.Table
+	}
+	for _, f := range table {
+		keys = append(keys, f.Key)
+	}
+	if len(keys) != len(sp.Features) {
+		return fmt.Sprintf("%d features, the record was generated with %d", len(keys), len(sp.Features))
+	}
+	for j, ft := range sp.Features {
+		if keys[j] != ft.Key {
+			return fmt.Sprintf("feature %d has the key %q, it was generated as %q", j, keys[j], ft.Key)
+		}
+		want := map[string]int{}
+		for _, q := range ft.Quals {
+			want[q.Name+"\x00"+q.Value]++
+		}
+		n := 0
+		for _, row := range table[j].Props {
+			if len(row) == 0 {
+				continue
+			}
+			vals := row[1:]
+			if len(vals) == 0 {
+				vals = []string{""}
+			}
+			for _, v := range vals {
+				want[row[0]+"\x00"+v]--
+				n++
+			}
+		}
+		for kv, c := range want {
+			if c != 0 {
+				parts := strings.SplitN(kv, "\x00", 2)
+				return fmt.Sprintf("feature %d (%s): /%s=%q occurs %+d times too %s (%d qualifiers read, %d generated)", j, ft.Key, parts[0], parts[1], -c, map[bool]string{true: "often", false: "seldom"}[c < 0], n, len(ft.Quals))
+			}
+		}
+	}
+	return ""
+}
+
 func applyOp(seq gts.Sequence, op editOp) (out gts.Sequence, pnc string) {
 	defer func() {
 		if x := recover(); x != nil {
@@ -670,6 +718,14 @@ func (x *c01Run) exec() {
 			structural := sc.Records[i].Gen != nil && len(sc.Records[i].Ops) == 0 && len(sc.Records[i].Dialect) == 0
 			if field, detail := compareRecords(vals[i], r2.Seqs[k], structural); field != "" {
 				x.violate("fidelity:"+field, srcKind(sc.Records[i]), fmt.Sprintf("record %d read back differs from what was written in %s: %s", i, field, detail))
+			}
+		}
+		// ... and against the generator's own description of the table: the
+		// comparison above looks at two gts values through gts's accessors
+		if sp := sc.Records[i]; sp.Gen != nil && len(sp.Ops) == 0 && len(sp.Dialect) == 0 {
+			res.Probes["tables_compared_with_the_generators_description"]++
+			if msg := tableAgainstSpec(sp.Gen, r2.Seqs[k]); msg != "" {
+				x.violate("fidelity:table-against-spec", "gen", fmt.Sprintf("record %d read back: %s", i, msg))
 			}
 		}
 		// ... and against the residues the record is made of, known without
